@@ -152,7 +152,7 @@ Example C12_stale_projection_refused : fresh_checker stale_example = false.
 Proof. exact stale_example_refused. Qed.
 
 (** * Observer options: verbosity (strengthening driven by seeds F3-I and F6-J; Model/Observers.v,
-      Proofs/SetupObsP.v, Proofs/ObserversP.v, per-run obligations in Proofs/ObserversMainP.v)
+      Proofs/SetupObsP.v, Proofs/ObserversP.v, per-run obligations in Proofs/SetupObsMainP.v)
 
     translate/mainloop2coq.py follows `opts.getVerbosity()` through main(): every `if` whose condition reads
     it is an observer-guarded statement; its statements are classified (const member function of an outside
@@ -166,7 +166,7 @@ Proof. exact stale_example_refused. Qed.
     the VALUES OF THE VERBOSITY TESTS only - pure statements leave the model's state alone and do not throw -
     the set-up ends the same way in the same state, and so does the whole program: the start state of the
     simulation does not depend on the verbosity. *)
-From Inovesa Require Import Model.Observers Proofs.SetupObsP Proofs.ObserversP Proofs.ObserversMainP.
+From Inovesa Require Import Model.Observers Proofs.SetupObsP Proofs.ObserversP Proofs.SetupObsMainP.
 
 Theorem C12_setup_observers_pure :
   obs_chk setup_observer_conds setup_pure_opaque main_setup = true /\
@@ -181,13 +181,14 @@ Print Assumptions C12_setup_observers_pure.
 
 (** (2) The observer-guarded statements of the simulation part (they are not part of [main_prog]: the driver
     model has no verbosity) pass [observers_pure]: each of them, executed in any state of the model, whatever
-    the unclassified effects [unk] would do, leaves the state as it is.  `getPastModulation()` counts with the
-    effect translate/dynqueue2coq.py reads off its body ([main_getpast]). *)
+    the unclassified effects [unk] would do, leaves the state as it is.  `getPastModulation()` counts here as a function
+    that clears the pending records ([clearing_getpast]: none of the statements may call it; C19 states the same with the
+    effect translate/dynqueue2coq.py reads off its body). *)
 Theorem C12_loop_observers_pure :
-  observers_pure main_getpast loop_observers = true /\
+  observers_pure clearing_getpast loop_observers = true /\
   forall (K : kern) (sig : Z -> bool) (cf : cfg) (junk : list (tMd K)) (unk : String.string -> st K -> st K) (o : ostmt) (s : st K),
-    In o loop_observers -> oexec_stmt sig cf junk main_getpast unk o s = s.
-Proof. exact (conj main_loop_observers_checked (fun K => main_loop_observers_pure K)). Qed.
+    In o loop_observers -> oexec_stmt sig cf junk clearing_getpast unk o s = s.
+Proof. exact (conj main_loop_observers_checked_c (fun K => main_loop_observers_pure_c K)). Qed.
 Print Assumptions C12_loop_observers_pure.
 
 (** non-vacuity: main() does test the verbosity in its set-up; the hypotheses are satisfiable by two
